@@ -35,7 +35,7 @@ var checks = map[string]checkSpec{
 		Rule: "2-8 goroutines share one Conn (ReadOffset with injective answers, ReadPartitions of distinct topics, ReadOffsets, Brokers, SetDeadline racing with I/O) or one Transport/Client (ListOffsets, Metadata, OffsetFetch, Fetch of pairwise distinct targets) with contexts cancelled or expiring mid-flight, slow / silent brokers, cuts and error codes; every call must return its own (precomputed) answer or an error, and correlation ids must be unique per connection. Conn mode also abandons fetch responses part-way (short-buffer Batch.Read, one message, unread) while the others' calls are in flight.",
 	},
 	"C11": {
-		Scenarios: []scnSpec{{Name: "connerr", Share: 1, CountKey: "connerr"}},
+		Scenarios: []scnSpec{{Name: "connerr", Share: 0.6, CountKey: "connerr"}, {Name: "stallclose", Share: 0.4, CountKey: "stallclose"}},
 		Quick:     30 * time.Second, Thorough: 10 * time.Minute, Level: "fault_enumeration",
 		Rule: "Exhaustive enumeration (thorough tier; the quick tier walks a seed-dependent subset of the same bijection) of 12 Conn operations (incl. Batch.Read into a too-short buffer, the documented non-fatal local error) x 3 negotiated-version configurations (produce v2/v3/v7, fetch v2/v5/v10, metadata v1/v6) x 11 faults (8 Kafka error codes placed in the operation's error field, response cut mid-way, garbage size prefix, wrong correlation id) x 2 error-field positions x 12 follow-up operations = 9504 cases (cases whose fault does not apply to the api/version run fault-free and the follow-up must still find the connection aligned); after a broker error code the follow-up must behave as on a fresh connection, after a framing/transport error it must fail, and no operation may return a value other than the model's.",
 	},
